@@ -281,6 +281,14 @@ def main(argv=None):
         def ex_(c):
             return _exec_checked(profile, c, known)
         size0 = shrink.case_size(case)
+        narrow = getattr(profile, 'narrow', None)
+        if narrow is not None:
+            try:
+                c2 = narrow(case, viol['violations'][0])
+                if c2 is not None and any(v.tag == tag for v in ex_(c2).violations):
+                    case = c2
+            except Exception:
+                print('note: narrowing failed:\n' + traceback.format_exc())
         try:
             small, execs = shrink.minimise(case, ex_, profile.shrink_candidates, tag,
                                            budget_s=float(os.environ.get('VERIF_SHRINK_S', '120')))
